@@ -43,6 +43,7 @@ struct G {
 	// MODE 7
 	int waitCall[2], waitRet[2], waitKind[2], waitResult[2]; int dqnCtor, dqnDtorStart, dqnDtorEnd; int enqStarted; int scopeUsed;
 	int sdqnCtor, sdqnDtorStart, sscopeUsed;     // the scope-only thread's DisableQueueNotify
+	int guardsMaybe, guardCtors; int waiterTid[2], toFired[2], toGuards[2], toCtors[2];   // DisableQueueNotify objects that may exist / constructions begun; state at a waiter's last timeout
 };
 static G * g;
 static uint32_t payload_of(uint32_t seq) { return seq * 2654435761u + 17u; }
@@ -228,6 +229,8 @@ extern "C" void harness()
 	}
 #endif
 	for(int s = 0; s < g->nev; s++) for(int r = 0; r < g->nev; r++) if(g->ev[s].dispStart != 0 && g->ev[r].enqCall < g->ev[s].consumedAt && g->ev[r].enqRet > g->ev[s].dispStart) vf_cover(COV_CONCURRENT_ENQ_PROCESS);
+	// the queue stays usable once the threads are done: one more event goes in and comes out (a lock that some call left held blocks this enqueue for ever)
+	do_enqueue(0);
 	// drain single-threaded
 	while(g->q->process()) {}
 	vf_assert(g->q->emptyQueue(), 342);
@@ -239,10 +242,12 @@ extern "C" void harness()
 
 // ------------------------------------------------------------------------------------------------ MODE 7
 #if MODE == 7
+static void on_timeout() { int t = vf_self(); for(int w = 0; w < 2; w++) if(g->waiterTid[w] == t) { g->toFired[w] = 1; g->toGuards[w] = g->guardsMaybe; g->toCtors[w] = g->guardCtors; } }
 // waiter: wait() (kind 0) or waitFor() (kind 1), then process what is there
 static void waiter(void * p)
 {
 	int me = *(int *)p;
+	g->waiterTid[me] = vf_self(); g->toFired[me] = 0;
 	g->waitCall[me] = g->clock++;
 	if(g->waitKind[me] == 0) { g->q->wait(); g->waitResult[me] = 1; }
 	else {
@@ -251,6 +256,10 @@ static void waiter(void * p)
 		// waitFor returns false only after ITS timeout: whatever relative timeout the library handed to the condition variable is not shorter
 		// than the 1.9 ms the caller asked for (not a whole number of milliseconds on purpose)
 		if(! g->waitResult[me] && g_vf_wait_ns >= 0) vf_assert(g_vf_wait_ns >= 1900000ll, 356);
+		// C11: waitFor timed out while no DisableQueueNotify object existed (none at the moment of the time-out -- when the waiter holds the queue mutex
+		// again -- and none constructed from then until the return): every event whose enqueue had completed before the call began has been fully consumed
+		if(! g->waitResult[me] && g->toFired[me] && g->toGuards[me] == 0 && g->toCtors[me] == g->guardCtors)
+			for(int s = 0; s < g->nev; s++) if(g->ev[s].enqRet != 0 && g->ev[s].enqRet < g->waitCall[me]) vf_assert(g->ev[s].dispatched + g->ev[s].taken == 1 && g->ev[s].consumedAt != 0, 357);
 	}
 	g->waitRet[me] = g->clock++;
 	if(g->waitResult[me]) {
@@ -260,23 +269,31 @@ static void waiter(void * p)
 	else vf_cover(COV_TIMEOUT);
 	g->q->process();                                            // woken consumers drain the queue
 }
-// enqueuer script: 0 = plain enqueue; 1 = { scope; enqueue } ; 2 = { scope { scope; enqueue } } ; 3 = { scope } then enqueue ; 4 = enqueue twice inside one scope
+// GUARD_BEGIN / GUARD_END bracket the whole lifetime of a DisableQueueNotify object (from before its constructor to after its destructor)
+#define GUARD_BEGIN do { g->guardsMaybe++; g->guardCtors++; } while(0)
+#define GUARD_END do { g->guardsMaybe--; } while(0)
+// enqueuer script: 5 = two plain enqueues; 0 = plain enqueue; 1 = { scope; enqueue } ; 2 = { scope { scope; enqueue } } ; 3 = { scope } then enqueue ; 4 = enqueue twice inside one scope
 static void enqueuer(void * p)
 {
 	int script = *(int *)p;
 #ifdef HETER
-	do_enqueue(3); (void)script;                 // the heterogeneous queue has wait / waitFor but no DisableQueueNotify
+	do_enqueue(3); if(script == 5) do_enqueue(3);    // the heterogeneous queue has wait / waitFor but no DisableQueueNotify
 #else
 	if(script == 0) do_enqueue(3);
+	else if(script == 5) { do_enqueue(3); do_enqueue(3); }       // two plain enqueues: the second may fall into a woken consumer's process()
 	else if(script == 1 || script == 4) {
+		GUARD_BEGIN;
 		{ Q::DisableQueueNotify d(g->q); g->dqnCtor = g->clock++; g->scopeUsed = 1; do_enqueue(3); if(script == 4) do_enqueue(3); vf_cover(COV_SCOPE_WITH_PENDING); g->dqnDtorStart = g->clock++; }
+		GUARD_END;
 		g->dqnDtorEnd = g->clock++;
 	}
 	else if(script == 2) {
-		{ Q::DisableQueueNotify d1(g->q); g->dqnCtor = g->clock++; g->scopeUsed = 1; { Q::DisableQueueNotify d2(g->q); do_enqueue(3); } g->dqnDtorStart = g->clock++; }
+		GUARD_BEGIN;
+		{ Q::DisableQueueNotify d1(g->q); g->dqnCtor = g->clock++; g->scopeUsed = 1; GUARD_BEGIN; { Q::DisableQueueNotify d2(g->q); do_enqueue(3); } GUARD_END; g->dqnDtorStart = g->clock++; }
+		GUARD_END;
 		g->dqnDtorEnd = g->clock++;
 	}
-	else { { Q::DisableQueueNotify d(g->q); } do_enqueue(3); }
+	else { GUARD_BEGIN; { Q::DisableQueueNotify d(g->q); } GUARD_END; do_enqueue(3); }
 #endif
 }
 #ifdef PROC_THREAD
@@ -294,16 +311,19 @@ static void processor(void * p)
 static void scope_only(void *)
 {
 	// a thread that only opens and closes a DisableQueueNotify scope (nothing pending from it)
+	GUARD_BEGIN;
 	{ Q::DisableQueueNotify d(g->q);
 	  g->sdqnCtor = g->clock++; g->sscopeUsed = 1;           // stamped once the object exists (its constructor has raised the counter)
 	  vf_yield(1);
 	  g->sdqnDtorStart = g->clock++; }
+	GUARD_END;
 }
 #endif
 extern "C" void harness()
 {
 	g = new G(); g->q = new Q(); g->clock = 1;
 	g->q->appendListener(EV, Cb(1));
+	g_vf_on_timeout = &on_timeout; g->waiterTid[0] = g->waiterTid[1] = -1;
 	static int widx[2] = {0, 1}; static int script;
 	int nw = 1;
 #if TT >= 3
@@ -311,9 +331,9 @@ extern "C" void harness()
 #endif
 	for(int w = 0; w < nw; w++) { g->waitKind[w] = (int)vf_choose(2); g->waitCall[w] = 0; g->waitRet[w] = 0; }
 #ifdef HETER
-	script = 0;
+	script = vf_choose(2) ? 5 : 0;
 #else
-	script = (int)vf_choose(5);
+	script = (int)vf_choose(6);
 #endif
 #ifdef PROC_THREAD
 	static int pkind; pkind = (int)vf_choose(2); script = 0;
